@@ -1,12 +1,14 @@
 #!/bin/bash
 # Build the framework from files on disk only (offline): regenerate coq/Gen from /repo and build
 # the whole Coq development (full .vo build).
-cd "$(dirname "$0")"
-export PYTHONPATH=/verif/harness/pyshim:/repo:/verif/harness:/verif/harness/translate
+here="$(cd "$(dirname "$0")" && pwd)"
+cd "$here"
+export PYTHONPATH=$here/harness/pyshim:${VERIF_REPO:-/repo}:$here/harness:$here/harness/translate
 mkdir -p _build evidence replays
 /venv/bin/python - <<'PY'
-import sys
-sys.path[:0] = ["/verif/harness", "/verif/harness/translate"]
+import os, sys
+here = os.getcwd()
+sys.path[:0] = [os.path.join(here, "harness"), os.path.join(here, "harness", "translate")]
 import check
 class C:  # minimal ctx
     stage_errors = []
